@@ -67,9 +67,9 @@ THEOREMS = [
         "srs_env_is_max srs_env_order_independent srs_env_form percase_columns "
         "ext_is_fold_absmax_onecol onecol_broadcast_counterexample uf_split uf_unit uf_scaling "
         "cache_transparent "
-        "uf_split_full uf_scaling_full uf_unit_full cache_transparent_full cache_transparent_blocks "
+        "uf_split_full uf_split_full_routine uf_scaling_full uf_unit_full cache_transparent_full cache_transparent_blocks "
         "frf_recovery_is_abs_extreme merge_of_disjoint_case_sets_is_one_pass merge_refuses_duplicates "
-        "store_refuses_duplicates calc_ext_is_fold_max "
+        "store_refuses_duplicates calc_ext_is_fold_max stat_ext_sanity "
         "psd_recovery_is_sum_over_forces psd_row_is_sum_over_forces rms_is_trapz_sqrt peak_is_factor_times_rms "
         "meansquare_is_linear psd_recovery_is_peak_extreme"
     ).split()
@@ -110,7 +110,7 @@ PARTIAL = (
     "full-matrix apply_uf: the theorems are about the partition (block) arithmetic with the factorisation as data; the "
     "extraction of the partitions (flippv / np.ix_) and the scatter into n rows are executable model code tied by the uf-full "
     "stream but have no theorem of their own; delete_extreme (recursion over nested results) is covered by the form-twice "
-    "check and the oracle only; calc_stat_ext has a model and a numeric stream but no theorem; the SRS of the response PSD "
+    "check and the oracle only; calc_stat_ext has a model, a numeric stream and only a sanity theorem (k = 0, equal cases); the SRS of the response PSD "
     "(srs.vrs, dosrs=True in psd_data_recovery) and solvepsd(use_apply_uf=True) are not driven"
 )
 MANIFEST = {
@@ -218,9 +218,12 @@ def run_hist(h, order=None):
         setattr(cur, nm, np.full((r, n), NAN))
     snaps = []
     calls = h["calls"] if order is None else [h["calls"][i] for i in order]
+    cur.inputs = []  # what was handed in (object, labels) -- must still be what it was afterwards
     for c in calls:
         mm = SimpleNamespace(ext=arr(c["ext"]), ext_x=None if c["ext_x"] is None else arr(c["ext_x"]))
-        cla.extrema(cur, mm, copy.deepcopy(c["maxcase"]), copy.deepcopy(c["mincase"]), c["casenum"])
+        mxc, mnc = copy.deepcopy(c["maxcase"]), copy.deepcopy(c["mincase"])
+        cla.extrema(cur, mm, mxc, mnc, c["casenum"])
+        cur.inputs.append((c, mm, mxc, mnc))
         snaps.append((cur.ext.copy(), None if cur.ext_x is None else cur.ext_x.copy(),
                       list(cur.maxcase), list(cur.mincase)))
     return snaps, cur
@@ -555,6 +558,9 @@ def gen_form(rng):
             "case_order": order}
 
 
+_SNAPS = []  # snapshots of the parts of the last build_form call, taken before merge / form_extreme
+
+
 def build_form(spec, perm=None, regroup=None):
     from pyyeti import cla
 
@@ -565,6 +571,7 @@ def build_form(spec, perm=None, regroup=None):
             raise Infra("toy event refused: %s" % err)
         evs.append(res)
     groups = spec["groups"] if regroup is None else regroup
+    _SNAPS[:] = [_snapshot(res["cat"]) for res in evs]
     with warnings.catch_warnings():
         warnings.simplefilter("ignore")
         top = cla.DR_Results()
@@ -816,8 +823,12 @@ def uf_impl_all(spec):
     so = DR.apply_uf(sol, m, b, k, spec["nrb"], rf)
     res["event"] = [pack(so[u]) for u in ufs]
     save = {}
-    res["shared"] = [pack(dr_event.apply_uf(sol, u, m, b, k, spec["nrb"], rf, save)) for u in ufs]
+    raw = [dr_event.apply_uf(sol, u, m, b, k, spec["nrb"], rf, save) for u in ufs]
+    res["shared"] = [pack(o) for o in raw]
     res["fresh"] = [pack(dr_event.apply_uf(sol, u, m, b, k, spec["nrb"], rf)) for u in ufs]
+    # results returned earlier are still what they were after the later calls
+    res["earlier_unchanged"] = all(np.array_equal(pack(o), p, equal_nan=True) for o, p in zip(raw, res["shared"])) and \
+        all(np.array_equal(pack(so[u]), p, equal_nan=True) for u, p in zip(ufs, res["event"]))
     pgs = [getattr(so[u], "pg", None) for u in ufs]
     _, m0, b0, k0, _, _ = uf_arrays(spec)
     res["inputs_unchanged"] = all(x is None or np.array_equal(x, y) for x, y in ((m, m0), (b, b0), (k, k0)))
@@ -1499,6 +1510,7 @@ def correspondence(ctx):
                 model = model + 1j * uf_parse(got[1])
             impl, pgs = uf_impl_all(spec)
             impl.pop("inputs_unchanged", None)
+            impl.pop("earlier_unchanged", None)
             nontriv = spec["nrb"] < spec["n"]
             ctx.case(spec, nontrivial=nontriv, branch="stream:uf")
             ctx.count("branch:uf-all-rigid" if not nontriv else ("branch:uf-with-rf" if spec["rf"] else "branch:uf-elastic-only"))
@@ -1516,6 +1528,7 @@ def correspondence(ctx):
         elif stream == "uf-full":
             impl, pgs = uf_impl_all(spec)
             unchanged = impl.pop("inputs_unchanged", True)
+            impl.pop("earlier_unchanged", None)
             nontriv = spec["nrb"] < spec["n"]
             ctx.case(spec, nontrivial=nontriv, branch="stream:uf-full")
             ctx.count("branch:uf-full-layout-" + spec["layout"])
@@ -1644,6 +1657,42 @@ def _same(a, b):
     return (a != a and b != b) or a == b
 
 
+def jsonable_small(v):
+    if isinstance(v, np.ndarray):
+        return v.tolist()
+    if isinstance(v, dict):
+        return {str(k): jsonable_small(x) for k, x in v.items()}
+    return v
+
+
+def _snapshot(cat):
+    """deep copy of everything a results category holds that the property speaks about"""
+    out = {}
+    for nm in ("ext", "ext_x", "mx", "mn", "mx_x", "mn_x", "maxcase", "mincase", "cases", "hist", "frf", "psd", "rms"):
+        if hasattr(cat, nm):
+            out[nm] = copy.deepcopy(getattr(cat, nm))
+    if hasattr(cat, "srs"):
+        out["srs.ext"] = copy.deepcopy(cat.srs.ext)
+        out["srs.srs"] = copy.deepcopy(cat.srs.srs)
+    return out
+
+
+def _snap_diff(before, cat):
+    """name of the first member of `cat` that is no longer what the snapshot recorded, or None"""
+    now = _snapshot(cat)
+    for nm, v in before.items():
+        w = now.get(nm)
+        if isinstance(v, np.ndarray):
+            if not isinstance(w, np.ndarray) or v.shape != w.shape or not np.array_equal(v, w, equal_nan=True):
+                return nm
+        elif isinstance(v, dict):
+            if set(v) != set(w) or any(not np.array_equal(v[q], w[q], equal_nan=True) for q in v):
+                return nm
+        elif v != w:
+            return nm
+    return None
+
+
 def oracle_hist(h):
     fails = []
     cols = 1 if h["kind"] == "ext1" else 2
@@ -1695,6 +1744,17 @@ def oracle_hist(h):
                                   h, gx, [xs[k] for k in attain]))
             elif ext_x is not None:
                 fails.append(("extrema-abscissa-invented", "ext_x appeared although no case supplied one", h, "array", None))
+    # what was handed in is still what it was (no aliasing between the accumulator and its inputs)
+    for n_in, (c, mm, mxc, mnc) in enumerate(cur.inputs):
+        if not np.array_equal(mm.ext, arr(c["ext"]), equal_nan=True) or \
+                (c["ext_x"] is not None and not np.array_equal(mm.ext_x, arr(c["ext_x"]), equal_nan=True)) or \
+                mxc != c["maxcase"] or mnc != c["mincase"]:
+            fails.append(("extrema-%d-column-input-modified-by-later-call" % cols,
+                          "the mm / labels handed in at call %d are no longer what they were after the later calls "
+                          "(the accumulator aliases its input)" % n_in, h,
+                          [mm.ext.tolist(), None if mm.ext_x is None else mm.ext_x.tolist(), mxc, mnc],
+                          [c["ext"], c["ext_x"], c["maxcase"], c["mincase"]]))
+            break
     # per-case columns
     if calls[0]["casenum"] is not None:
         for c in calls:
@@ -1839,6 +1899,30 @@ def oracle_event(spec):
 def oracle_form(spec):
     fails = []
     top, evs = build_form(spec)
+    before = list(_SNAPS)
+    shape = "nested" if spec["groups"] is not None else "flat"
+    # the parts handed into merge / form_extreme are afterwards bit-identical to what they were
+    for i, (snap, res) in enumerate(zip(before, evs)):
+        bad = _snap_diff(snap, res["cat"])
+        if bad is not None:
+            fails.append(("form-extreme-%s-modifies-part-%s" % (shape, bad.replace(".", "-")),
+                          "after form_extreme, `%s` of event %s (a part of the envelope) is no longer what its own recovery "
+                          "left there" % (bad, spec["events"][i]["event"]), spec,
+                          jsonable_small(getattr(res["cat"], bad, None)), jsonable_small(snap.get(bad))))
+            break
+    # a sub-group's own envelope is what forming that group alone gives (later groups must not touch it)
+    if not fails and spec["groups"] is not None:
+        for g, members in enumerate(spec["groups"]):
+            sub = {"kind": "form", "events": [spec["events"][i] for i in members], "groups": None,
+                   "doappend": spec["doappend"], "case_order": None}
+            alone, _ = build_form(sub)
+            a, b = alone["extreme"]["cat"], top["G%d" % g]["extreme"]["cat"]
+            bad = _snap_diff(_snapshot(a), b)
+            if bad is not None:
+                fails.append(("form-extreme-nested-group-envelope-%s" % bad.replace(".", "-"),
+                              "`%s` of the envelope of group %d differs from the envelope of the same events formed alone" % (bad, g),
+                              spec, jsonable_small(getattr(b, bad, None)), jsonable_small(getattr(a, bad, None))))
+                break
     used = list(range(len(evs)))
     if spec["groups"] is None and spec["case_order"] is not None:
         used = spec["case_order"]
@@ -1846,7 +1930,6 @@ def oracle_form(spec):
     parts = [evs[i]["cat"] for i in used]
     allmx = np.fmax.reduce([p.ext[:, 0] for p in parts])
     allmn = np.fmin.reduce([p.ext[:, 1] for p in parts])
-    shape = "nested" if spec["groups"] is not None else "flat"
     if not (np.array_equal(ext.ext[:, 0], allmx, equal_nan=True) and np.array_equal(ext.ext[:, 1], allmn, equal_nan=True)):
         fails.append(("form-extreme-%s-not-envelope" % shape, "top-level extreme is not the envelope of the events", spec,
                       ext.ext.tolist(), [allmx.tolist(), allmn.tolist()]))
@@ -1913,6 +1996,31 @@ def oracle_form(spec):
     return fails
 
 
+def _uf_expected(sol, M, B, K, n, nrb, rfi, uf):
+    """the documented result of apply_uf, straight from the formulas in its docstring: (n, nt, 5) = a, v, d, d_static, d_dynamic"""
+    ruf, euf, duf, suf = uf
+    el = [i for i in range(nrb, n) if i not in rfi]
+    a = sol.a.astype(complex).copy()
+    v = sol.v.astype(complex).copy()
+    ds = np.zeros_like(a)
+    dd = np.zeros_like(a)
+    a[:nrb] *= ruf * suf
+    v[:nrb] *= ruf * suf
+    a[rfi] = 0
+    v[rfi] = 0
+    a[el] *= euf * duf
+    v[el] *= euf * duf
+    if el:
+        ee = np.ix_(el, el)
+        av = M[ee] @ sol.a[el] + B[ee] @ sol.v[el]
+        F = av + K[ee] @ sol.d[el]
+        ds[el] = euf * suf * np.linalg.solve(K[ee], F)
+        dd[el] = -euf * duf * np.linalg.solve(K[ee], av)
+    if rfi:
+        ds[rfi] = euf * suf * sol.d[rfi]
+    return np.stack([a, v, ds + dd, ds, dd], axis=-1)
+
+
 def oracle_uf(spec):
     from pyyeti.cla import dr_event
 
@@ -1929,6 +2037,9 @@ def oracle_uf(spec):
     for nm in ("a", "v", "d"):
         if not np.array_equal(getattr(sol, nm), getattr(keep, nm)):
             fails.append(("apply-uf-mutates-input", "sol.%s changed" % nm, spec, None, None))
+    if not impl.pop("earlier_unchanged"):
+        fails.append(("apply-uf-earlier-result-changed", "a solution returned by an earlier apply_uf call changed when later calls "
+                      "were made", spec, None, None))
     if not impl.pop("inputs_unchanged"):
         fails.append(("apply-uf-mutates-input", "the caller's m, b or k changed during apply_uf (%s-ordered matrices): "
                       "later calls see different modal data" % spec.get("layout", "C"), spec, None, None))
@@ -1937,25 +2048,7 @@ def oracle_uf(spec):
     K = np.diag(k) if k.ndim == 1 else k
     kindtag = ("-full" if spec["full"] else "-diag") + ("-rf" if rfi else "") + ("-rb" if nrb else "")
     for u, (ruf, euf, duf, suf) in enumerate(ufs):
-        a = sol.a.astype(complex).copy()
-        v = sol.v.astype(complex).copy()
-        ds = np.zeros_like(a)
-        dd = np.zeros_like(a)
-        a[:nrb] *= ruf * suf
-        v[:nrb] *= ruf * suf
-        a[rfi] = 0
-        v[rfi] = 0
-        a[el] *= euf * duf
-        v[el] *= euf * duf
-        if el:
-            ee = np.ix_(el, el)
-            av = M[ee] @ sol.a[el] + B[ee] @ sol.v[el]
-            F = av + K[ee] @ sol.d[el]
-            ds[el] = euf * suf * np.linalg.solve(K[ee], F)
-            dd[el] = -euf * duf * np.linalg.solve(K[ee], av)
-        if rfi:
-            ds[rfi] = euf * suf * sol.d[rfi]
-        want = np.stack([a, v, ds + dd, ds, dd], axis=-1)
+        want = _uf_expected(sol, M, B, K, n, nrb, rfi, ufs[u])
         scale = 1.0 + float(np.max(np.abs(want))) if want.size else 1.0
         tol = (1e-9 if not spec["full"] else 1e-8) * scale
         for disc in ("event", "shared", "fresh"):
@@ -1981,6 +2074,26 @@ def oracle_uf(spec):
                 fails.append(("apply-uf-pg", "pg is not scaled by suf", spec, None, None))
         if fails:
             break
+    # a history of DR_Event.apply_uf calls on the SAME event object and solution with other partitions: nothing computed
+    # for one partition may leak into the next call (each call owns a fresh `save`)
+    if not fails and rfi and nrb < n and not spec.get("coupled"):
+        from pyyeti import cla
+
+        DR = cla.DR_Event()
+        DR.UF_reds = list(ufs)
+        pack = lambda o: np.stack([o.a, o.v, o.d, o.d_static, o.d_dynamic], axis=-1)
+        for rfm, rl in ((rf, rfi), (None, []), (rf, rfi)):
+            so = DR.apply_uf(sol, m, b, k, nrb, rfm)
+            for u in range(len(ufs)):
+                want = _uf_expected(sol, M, B, K, n, nrb, rl, ufs[u])
+                sc = 1.0 + float(np.max(np.abs(want)))
+                if not float(np.max(np.abs(pack(so[ufs[u]]) - want))) <= 1e-8 * sc:
+                    fails.append(("apply-uf-stale-partition" + kindtag, "DR_Event.apply_uf called again on the same solution with "
+                                  "rfmodes=%r returns values that do not follow the documented formula for that partition" % (rl,),
+                                  spec, pack(so[ufs[u]]).tolist(), want.tolist()))
+                    break
+            if fails:
+                break
     # cache transparency over another call order sharing one dict
     if not fails and len(ufs) > 1:
         save = {}
@@ -2135,7 +2248,7 @@ def oracle_addmm(spec):
     top, evs, first = build_addmm(spec)
     r = spec["rows"]
     for e, res in zip(spec["events"], evs):
-        c = res["cat"]
+        c = res["cat"]  # looked at AFTER the envelope was formed (twice): the part must still hold what was added
         want = arr(e["mxmn"])
         mxc = [e["maxcase"]] * r if isinstance(e["maxcase"], str) else list(e["maxcase"])
         mnc = mxc if e["mincase"] is None else ([e["mincase"]] * r if isinstance(e["mincase"], str) else list(e["mincase"]))
